@@ -91,6 +91,22 @@ def plumb(ctx, fields: Iterable[str], skip=()):
                                   expected=f"{f}={f}", found=unparse(v) if v is not None else f"not passed: {other.name} uses its default")
     finally:
         ctx.evidence = saved_ev
+    # the container itself keeps what it was given: a __post_init__ (or any other method) that re-assigns a field converts the
+    # caller's value - int(7.75) is 7, float(np.float32(x)) is another number than x
+    saved_ev2, ctx.evidence = ctx.evidence, True
+    try:
+        for m_ in ua.methods.values():
+            if m_.name in ("__init__",):
+                continue
+            for n in Resolver.walk_own(m_.node):
+                if isinstance(n, ast.Attribute) and isinstance(n.ctx, ast.Store) and n.attr in fields and isinstance(n.value, ast.Name) and n.value.id == "self":
+                    ctx.fail(m_, f"UserArguments.{m_.name} re-assigns the field `{n.attr}`: the value the run uses is no longer the caller's", line=n.lineno,
+                             role=f"plumb-store:{m_.name}:{n.attr}", expected="fields keep the constructor's values", found=unparse(n))
+                if isinstance(n, ast.Call) and isinstance(n.func, ast.Name) and n.func.id == "setattr" and n.args and isinstance(n.args[0], ast.Name) and n.args[0].id == "self":
+                    ctx.fail(m_, f"UserArguments.{m_.name} re-assigns fields through setattr", line=n.lineno, role=f"plumb-store:{m_.name}:setattr",
+                             expected="fields keep the constructor's values", found=unparse(n, 60))
+    finally:
+        ctx.evidence = saved_ev2
     # nobody overwrites a field outside the class
     stores = []
     for fi in ana.prog.functions.values():
